@@ -48,7 +48,11 @@ func (wh *workHeap) Len() int {
 func (wh *workHeap) Less(i, j int) bool {
 	wh.mux.RLock()
 	defer wh.mux.RUnlock()
-	return wh.items[i].priority < wh.items[j].priority
+	if wh.items[i].priority != wh.items[j].priority {
+		return wh.items[i].priority < wh.items[j].priority
+	}
+	// first come, first served among equal priorities
+	return wh.items[i].seq < wh.items[j].seq
 }
 
 // Swap swaps the work items at index i and j
